@@ -31,7 +31,8 @@ WRAP32 = [2 ** 32 - 1, 2 ** 32 - 2, 2 ** 32 - 5, 2 ** 32 - 40, 2 ** 32 - 300, 2 
 
 
 def _cfg_c01(r):
-    return D.Cfg(n_rel=r.randint(1, 4), n_pr=0, steps=r.choice([60, 90, 140]), p_drop=r.choice([0.05, 0.12, 0.25]),
+    # (a third of the runs also close channels and reuse their ids: "any number of channels" over time)
+    return D.Cfg(p_close=r.choice([0.0, 0.0, 0.05]), n_rel=r.randint(1, 4), n_pr=0, steps=r.choice([60, 90, 140]), p_drop=r.choice([0.05, 0.12, 0.25]),
                  p_dup=r.choice([0.0, 0.05, 0.12]), p_fire=0.05, p_app=0.3, max_msgs=r.choice([8, 14, 24]),
                  burst=r.choice([0, 0, 4]), origin_a=r.choice(D.ORIGINS), origin_b=r.choice(D.ORIGINS),
                  handshake_faults=r.random() < 0.2, unicode_labels=True)
@@ -79,13 +80,13 @@ PROPS = {
     "C01": dict(focus=["C01", "EXC"], gen=_cfg_c01, nrand=(260, 2500), nsim=(60, 600), sim="sim-rel",
                 design=(["rel-small"], ["rel-small", "rel-mid", "rel-burst"]),
                 witnesses=["W_NoRetransmission", "W_NoReassembly", "W_NotAllDelivered"],
-                deviations=[("DupNotFiltered", "rel-small"), ("PopNoReset", "rel-small")],
+                deviations=[("DupNotFiltered", "rel-small")],
                 bind="C01"),
     "C02": dict(focus=["C02", "EXC"], gen=_cfg_c02, nrand=(220, 2500), nsim=(60, 600), sim="sim-rel",
                 design=(["rel-small"], ["rel-small", "rel-mid", "rel-burst"]),
                 witnesses=["W_NoRetransmission", "W_NoReassembly", "W_NotAllDelivered"],
                 witnesses_thorough=[("W_NoFastRecovery", "rel-mid")],
-                deviations=[("PopNoReset", "rel-small"), ("NoT3OnRetx", "rel-small")],
+                deviations=[("NoT3OnRetx", "rel-small"), ("NoFlushOnSack", "rel-small")],
                 liveness=True, bind="C02"),
     "C06": dict(focus=["C06", "EXC"], gen=_cfg_c06, nrand=(220, 2500), nsim=(60, 600), sim="sim-pr", sim2="sim-life",
                 design=(["pr-tiny", "pr-fwdloss"], ["pr-tiny", "pr-fwdloss", "pr-back", "pr-life", "pr-small", "pr-big", "pr-mix"]),
@@ -503,6 +504,7 @@ def run(prop):
         bind = _binding(prop, traces, verdicts)
 
         nontriv = 0
+        tainted = 0
         for tr, (v, pos) in zip(traces, verdicts):
             kinds = {e["k"] for e in tr["events"]}
             if "msg" in kinds and ("drop" in kinds or any(o and o[0] in ("dup", "fire") for o in tr.get("ops", []))
@@ -510,6 +512,9 @@ def run(prop):
                 nontriv += 1
             if v.startswith("machinery"):
                 raise T.MachineryError("trace: " + v)
+            if v == "tainted":
+                tainted += 1
+                continue
             if v != "ok":
                 ev = tr["events"][pos - 1] if 0 < pos <= len(tr["events"]) else None
                 rep.violation(v, {"clause": v}, {"event": ev, "position": pos, "source": tr["meta"]},
@@ -529,6 +534,7 @@ def run(prop):
             "trace_events_validated": sum(len(t["events"]) for t in traces),
             "trace_validation_states": tstates,
             "traces_with_faults_and_deliveries": nontriv,
+            "traces_ended_at_a_finding_of_another_property": tainted,
             "lockstep_steps": ls_steps, "lockstep_steps_agreeing": ls_matched, "lockstep_first_mismatches": ls_mismatch,
             "binding_selftest": bind,
             "samples": [_sample(traces[0]), _sample(traces[-1])],
